@@ -691,7 +691,7 @@ def es_iteration(case, es, shadow, op, where, kind, dt, tol, dim, batch, lb, ub,
         if rp is None:
             raise Stop("too-many-rounds")
         rounds, ref, rec, margin = rp
-    if margin < 64 * tol * scale:
+    if margin < 4 * tol * scale:
         raise Stop("bounds-tie-zone")
     if len(rounds) > 1:
         count(f"{kind}:asks-with-resampling")
@@ -1360,33 +1360,35 @@ def convergence_tests():
     from ribs.emitters.opt import (CMAEvolutionStrategy, LMMAEvolutionStrategy, OpenAIEvolutionStrategy,
                                    PyCMAEvolutionStrategy, SeparableCMAEvolutionStrategy)
     warnings.simplefilter("ignore")
-    dim = 6
-    opt = np.linspace(-1.0, 1.5, dim)
-    coef = np.linspace(1.0, 4.0, dim)
-    x0 = np.zeros(dim)
-    obj = lambda X: -np.sum(coef[None] * (X - opt[None])**2, axis=1)  # concave objective = convex loss
-    d0 = float(np.linalg.norm(x0 - opt))
     out = []
+    # (name, dimension, constructor, iteration cap, how to read the mean); LM-MA-ES is a large-scale method
+    # (csigma = 2*batch/dim must be well below 2), hence the larger dimension
     specs = [
-        ("CMAEvolutionStrategy", lambda: CMAEvolutionStrategy(0.5, dim, 12, seed=11), 400, lambda e: e.mean),
-        ("SeparableCMAEvolutionStrategy", lambda: SeparableCMAEvolutionStrategy(0.5, dim, 12, seed=12), 600,
+        ("CMAEvolutionStrategy", 6, lambda d: CMAEvolutionStrategy(0.5, d, 12, seed=11), 400, lambda e: e.mean),
+        ("SeparableCMAEvolutionStrategy", 6, lambda d: SeparableCMAEvolutionStrategy(0.5, d, 12, seed=12), 600,
          lambda e: e.mean),
-        ("LMMAEvolutionStrategy", lambda: LMMAEvolutionStrategy(0.5, dim, 6, seed=13), 1500, lambda e: e.mean),
-        ("OpenAIEvolutionStrategy(mirror)", lambda: OpenAIEvolutionStrategy(0.05, dim, 20, seed=14, lr=0.05), 1500,
+        ("LMMAEvolutionStrategy", 30, lambda d: LMMAEvolutionStrategy(0.5, d, 8, seed=13), 3000, lambda e: e.mean),
+        ("OpenAIEvolutionStrategy(mirror)", 6, lambda d: OpenAIEvolutionStrategy(0.05, d, 20, seed=14, lr=0.05), 1500,
          lambda e: e.adam_opt.theta),
-        ("OpenAIEvolutionStrategy(non-mirror)",
-         lambda: OpenAIEvolutionStrategy(0.05, dim, 20, seed=15, mirror_sampling=False, lr=0.05), 1500,
+        ("OpenAIEvolutionStrategy(non-mirror)", 6,
+         lambda d: OpenAIEvolutionStrategy(0.05, d, 20, seed=15, mirror_sampling=False, lr=0.05), 1500,
          lambda e: e.adam_opt.theta),
-        ("PyCMAEvolutionStrategy", lambda: PyCMAEvolutionStrategy(0.5, dim, 12, seed=16), 400,
+        ("PyCMAEvolutionStrategy", 6, lambda d: PyCMAEvolutionStrategy(0.5, d, 12, seed=16), 400,
          lambda e: e._es.mean),  # pylint: disable=protected-access
     ]
-    for name, mk, iters, get_mean in specs:
+    for name, dim, mk, iters, get_mean in specs:
         t0 = time.time()
+        opt = np.linspace(-1.0, 1.5, dim)
+        coef = np.linspace(1.0, 4.0, dim)
+        x0 = np.zeros(dim)
+        obj = lambda X, c=coef, o=opt: -np.sum(c[None] * (X - o[None])**2, axis=1)  # concave objective = convex loss
+        d0 = float(np.linalg.norm(x0 - opt))
+        label = f"convergence on a convex quadratic (dim {dim}, true ranks, batch//2 parents): {name}"
         try:
-            es = mk()
+            es = mk(dim)
             es.reset(x0)
-            best = d0
-            for _ in range(iters):
+            best, used = d0, 0
+            for used in range(1, iters + 1):
                 X = np.array(es.ask())
                 v = obj(X.astype(np.float64))
                 idx = np.argsort(-v)
@@ -1396,11 +1398,10 @@ def convergence_tests():
                     break
                 if es.check_stop(v[idx]):
                     break
-            out.append({"test": f"convergence on a convex quadratic: {name}", "passed": bool(best < 0.05 * d0),
-                        "distance_ratio": best / d0, "wall_s": round(time.time() - t0, 2)})
+            out.append({"test": label, "passed": bool(best < 0.05 * d0), "distance_ratio": best / d0,
+                        "iterations": used, "wall_s": round(time.time() - t0, 2)})
         except Exception as e:  # pylint: disable=broad-except
-            out.append({"test": f"convergence on a convex quadratic: {name}", "passed": False,
-                        "error": f"{type(e).__name__}: {e}"})
+            out.append({"test": label, "passed": False, "error": f"{type(e).__name__}: {e}"})
     return out
 
 
